@@ -3,7 +3,7 @@
 # Confirms, in the agent's scratch worktree, that the seeded change (a) applies, (b) keeps the 54 tests green,
 # (c) makes the demo fail, and that the demo passes without it.  Prints a JSON-ish summary.
 P=$1; I=$2; CR=$3; DEMO=$4
-W=/tmp/wt-$P; D=$W/seeded/$I
+W=${WT_PREFIX:-/tmp/wt-}$P; D=$W/seeded/$I
 cd $W || exit 2
 git checkout -q -- . && git clean -fdq -e seeded -e target
 PKG=scale-typegen; [ "$CR" = description ] && PKG=scale-typegen-description
